@@ -322,6 +322,41 @@ fn one_frame(t: &mut Tctx, ai: usize, algos: &[CrcAlgo], shape: &Shape, val: &Va
     decode_and_check(t, a, shape, &r);
 }
 
+/// Lean variant of the per-frame monitor for the interpreter stages: frame bytes through two storages, decode
+/// back with a tail, a handful of single-bit flips with the soundness invariant.
+fn lean_frame(t: &mut Tctx, ai: usize, algos: &[CrcAlgo], shape: &Shape, val: &Val) {
+    let a = &algos[ai];
+    let plain = spec::encode(val);
+    CUR_PLAIN.with(|p| *p.borrow_mut() = plain.clone());
+    let want = ref_frame(Framing::Crc(ai), algos, &plain);
+    t.st.eval();
+    t.st.count(&format!("frames_{}bit", a.bytes * 8));
+    let got = catch(|| (a.to_allocvec)(val));
+    let mut buf = vec![0u8; want.len()];
+    let got2 = catch(|| (a.to_slice)(val, &mut buf).map(|(_, l)| l));
+    if !matches!(&got, Ok(Ok(f)) if *f == want) || !matches!(got2, Ok(Ok(l)) if l == want.len() && buf == want) {
+        t.st.violation("C10:frame-differs", format!("{}: frame differs from plain ++ little-endian checksum {}", a.name, hexs(&want)), rp(a, shape, &plain));
+        return;
+    }
+    let mut with_tail = want.clone();
+    with_tail.extend_from_slice(&[0x11, 0x22]);
+    match decode_and_check(t, a, shape, &with_tail) {
+        Some(c) if c == want.len() => t.st.count("decoded_back"),
+        other => {
+            t.st.violation("C10:valid-frame-rejected", format!("{}: a valid frame followed by two bytes gave {:?}", a.name, other), rp(a, shape, &with_tail));
+            return;
+        }
+    }
+    for _ in 0..6 {
+        let mut bad = want.clone();
+        let k = t.rng.below(bad.len() as u64 * 8) as usize;
+        bad[k / 8] ^= 1 << (k % 8);
+        t.st.count("single_bit_flips");
+        // decode_and_check reports an accepted frame whose consumed bytes do not carry their own checksum
+        let _ = decode_and_check(t, a, shape, &bad);
+    }
+}
+
 /// CRC-checked decoding over a byte READER (the checksum flavour stacked on `IOReader` / `EIOReader`) with the
 /// scratch buffer sized exactly: what the value borrows plus the checksum bytes (read through the scratch).  The
 /// frame must decode to the value, consume exactly the frame from the reader, and a corrupted frame must be refused.
@@ -516,6 +551,28 @@ pub fn run(cfg: &Cfg) -> Report {
         });
         rep.stats.merge(s);
         rep.rule = "replay".into();
+        return rep;
+    }
+    if cfg.tier == Tier::Tiny && cfg.knob_u64("lean", 0) == 1 {
+        // lean interpreter workload (other byte orders): a few short frames per algorithm through the full monitor
+        let s = parallel(cfg, 1, |t| {
+            let algos = crc_algos();
+            let mut n = 0u64;
+            let limit = t.cfg.knob_u64("lean_values", 200);
+            while !t.cfg.expired() && n < limit {
+                let ai = (n as usize) % algos.len();
+                n += 1;
+                let len = t.rng.range(1, 5);
+                let (shape, val) = super::ser::value_of_len(&mut t.rng, len);
+                lean_frame(t, ai, &algos, &shape, &val);
+                if n % 5 == 0 {
+                    crc32_wrappers(t, &shape, &val);
+                }
+            }
+            t.st.add("lean_frames", n);
+        });
+        rep.stats.merge(s);
+        rep.rule = "lean interpreter workload: short frames of every catalogue algorithm through the frame, storage, corruption and soundness monitors".into();
         return rep;
     }
     let s = parallel(cfg, 1, |t| {
